@@ -82,6 +82,10 @@ pub struct Plan {
     /// preemptions of a running call (0 = none).
     #[serde(default, skip_serializing_if = "is_zero")]
     pub block_yield_mean: u32,
+    /// Threads engine: mean number of atomic operations of library code (incl. the inlined
+    /// fast paths of std's locks) between two atomic-point preemptions (0 = none).
+    #[serde(default, skip_serializing_if = "is_zero")]
+    pub atomic_yield_mean: u32,
     /// Fault `clock`: nanoseconds the simulated clock advances per reading (0 = the
     /// reference's 1 µs). A large step models a stalled or heavily loaded machine.
     #[serde(default, skip_serializing_if = "is_zero64")]
